@@ -92,13 +92,13 @@ pub fn parse_files(
         }
         [] => {
             // TODO: Maybe use a flag to ensure that a main component must be present.
-            report_duplicate_definitions(&definitions, &mut reports);
+            report_duplicate_definitions(&definitions, &file_library, &mut reports);
             let template_library = TemplateLibrary::new(definitions, file_library);
             ParseResult::Library(Box::new(template_library), reports)
         }
         _ => {
             reports.push(errors::MultipleMainError::produce_report());
-            report_duplicate_definitions(&definitions, &mut reports);
+            report_duplicate_definitions(&definitions, &file_library, &mut reports);
             let template_library = TemplateLibrary::new(definitions, file_library);
             ParseResult::Library(Box::new(template_library), reports)
         }
@@ -145,10 +145,13 @@ pub fn parse_files(
 /// reports all other definitions with the same name, since they are dropped.
 fn report_duplicate_definitions(
     definitions: &HashMap<FileID, Vec<Definition>>,
+    file_library: &FileLibrary,
     reports: &mut ReportCollection,
 ) {
+    // Visit included files first to ensure that clashes with definitions in user
+    // specified files are reported for the user specified file.
     let mut file_ids = definitions.keys().copied().collect::<Vec<_>>();
-    file_ids.sort_unstable();
+    file_ids.sort_by_key(|file_id| (file_library.is_user_input(*file_id), *file_id));
     let mut names = HashSet::new();
     for file_id in file_ids {
         for definition in &definitions[&file_id] {
